@@ -8,7 +8,10 @@ use std::borrow::Borrow;
 use std::error::Error;
 use std::fmt::{self, Debug, Display, Formatter};
 use std::hash::{BuildHasher, Hash};
+#[cfg(not(flurry_verif))]
 use std::sync::atomic::{AtomicIsize, Ordering};
+#[cfg(flurry_verif)]
+use {crate::verif::AtomicIsize, std::sync::atomic::Ordering};
 
 const ISIZE_BITS: usize = core::mem::size_of::<isize>() * 8;
 
@@ -342,6 +345,12 @@ impl<K, V, S> HashMap<K, V, S> {
     fn check_guard(&self, guard: &Guard<'_>) {
         // guard.collector() may be `None` if it is unprotected
         if let Some(c) = guard.collector() {
+            #[cfg(flurry_verif)]
+            crate::verif::event(
+                crate::verif::EV_CHECK_GUARD,
+                c as *const Collector as usize,
+                &self.collector as *const Collector as usize,
+            );
             assert!(Collector::ptr_eq(c, &self.collector));
         }
     }
@@ -447,6 +456,8 @@ impl<K, V, S> HashMap<K, V, S> {
             let mut sc = self.size_ctl.load(Ordering::SeqCst);
             if sc < 0 {
                 // we lost the initialization race; just spin
+                #[cfg(flurry_verif)]
+                crate::verif::spin();
                 std::thread::yield_now();
                 continue;
             }
@@ -664,6 +675,14 @@ where
         let stride = if ncpu > 1 { (n >> 3) / ncpu } else { n };
         let stride = std::cmp::max(stride as isize, MIN_TRANSFER_STRIDE);
 
+        #[cfg(flurry_verif)]
+        if next_table_ptr.is_null() {
+            crate::verif::event(
+                crate::verif::EV_RESIZE_INIT,
+                unsafe { table.as_ptr() } as usize,
+                n,
+            );
+        }
         if next_table_ptr.is_null() {
             // we are initiating a resize
             let table = Shared::boxed(Table::new(n << 1, &self.collector), &self.collector);
@@ -720,6 +739,12 @@ where
                     // this branch is only taken for one thread partaking in the resize!
                     self.next_table.store(Shared::null(), Ordering::SeqCst);
                     let now_garbage = self.table.swap(next_table_ptr, Ordering::SeqCst, guard);
+                    #[cfg(flurry_verif)]
+                    crate::verif::event(
+                        crate::verif::EV_TABLE_PUBLISHED,
+                        unsafe { now_garbage.as_ptr() } as usize,
+                        unsafe { next_table_ptr.as_ptr() } as usize,
+                    );
                     // safety: need to guarantee that now_garbage is no longer reachable. more
                     // specifically, no thread that executes _after_ this line can ever get a
                     // reference to now_garbage.
@@ -791,6 +816,10 @@ where
                         guard,
                     )
                     .is_ok();
+                #[cfg(flurry_verif)]
+                if advance {
+                    crate::verif::event(crate::verif::EV_BIN_MOVED, table as *const _ as usize, i);
+                }
                 continue;
             }
             // safety: as for table above
@@ -819,7 +848,11 @@ where
                 }
                 BinEntry::Node(ref head) => {
                     // bin is non-empty, need to link into it, so we must take the lock
+                    #[cfg(flurry_verif)]
+                    crate::verif::before_lock(&head.lock);
                     let head_lock = head.lock.lock();
+                    #[cfg(flurry_verif)]
+                    let _verif_lock = crate::verif::LockScope::new(&head.lock);
 
                     // need to check that this is _still_ the head
                     let current_head = table.bin(i, guard);
@@ -906,6 +939,8 @@ where
                     next_table.store_bin(i, low_bin);
                     next_table.store_bin(i + n, high_bin);
                     table.store_bin(i, table.get_moved(next_table_ptr, guard));
+                    #[cfg(flurry_verif)]
+                    crate::verif::event(crate::verif::EV_BIN_MOVED, table as *const _ as usize, i);
 
                     // everything up to last_run in the _old_ bin linked list is now garbage.
                     // those nodes have all been re-allocated in the new bin linked list.
@@ -931,10 +966,16 @@ where
 
                     advance = true;
 
+                    #[cfg(flurry_verif)]
+                    drop(_verif_lock);
                     drop(head_lock);
                 }
                 BinEntry::Tree(ref tree_bin) => {
+                    #[cfg(flurry_verif)]
+                    crate::verif::before_lock(&tree_bin.lock);
                     let bin_lock = tree_bin.lock.lock();
+                    #[cfg(flurry_verif)]
+                    let _verif_lock = crate::verif::LockScope::new(&tree_bin.lock);
 
                     // need to check that this is _still_ the correct bin
                     let current_head = table.bin(i, guard);
@@ -1061,6 +1102,8 @@ where
                     next_table.store_bin(i, low_bin);
                     next_table.store_bin(i + n, high_bin);
                     table.store_bin(i, table.get_moved(next_table_ptr, guard));
+                    #[cfg(flurry_verif)]
+                    crate::verif::event(crate::verif::EV_BIN_MOVED, table as *const _ as usize, i);
 
                     // if we did not re-use the old bin, it is now garbage,
                     // since all of its nodes have been reallocated. However,
@@ -1076,6 +1119,8 @@ where
                     }
 
                     advance = true;
+                    #[cfg(flurry_verif)]
+                    drop(_verif_lock);
                     drop(bin_lock);
                 }
                 BinEntry::TreeNode(_) => unreachable!(
@@ -1468,7 +1513,11 @@ where
                     idx = 0;
                 }
                 BinEntry::Node(ref node) => {
+                    #[cfg(flurry_verif)]
+                    crate::verif::before_lock(&node.lock);
                     let head_lock = node.lock.lock();
+                    #[cfg(flurry_verif)]
+                    let _verif_lock = crate::verif::LockScope::new(&node.lock);
                     // need to check that this is _still_ the head
                     let current_head = tab.bin(idx, guard);
                     if current_head != raw_node {
@@ -1483,6 +1532,8 @@ where
                     // drop the lock early and do the counting and garbage collection outside the
                     // critical section.
                     tab.store_bin(idx, Shared::null());
+                    #[cfg(flurry_verif)]
+                    drop(_verif_lock);
                     drop(head_lock);
                     // next, walk the nodes of the bin and free the nodes and their values as we go
                     // note that we do not free the head node yet, since we're holding the lock it contains
@@ -1520,7 +1571,11 @@ where
                     idx += 1;
                 }
                 BinEntry::Tree(ref tree_bin) => {
+                    #[cfg(flurry_verif)]
+                    crate::verif::before_lock(&tree_bin.lock);
                     let bin_lock = tree_bin.lock.lock();
+                    #[cfg(flurry_verif)]
+                    let _verif_lock = crate::verif::LockScope::new(&tree_bin.lock);
                     // need to check that this is _still_ the correct bin
                     let current_head = tab.bin(idx, guard);
                     if current_head != raw_node {
@@ -1535,6 +1590,8 @@ where
                     // drop the lock early and do the counting and garbage collection outside the
                     // critical section.
                     tab.store_bin(idx, Shared::null());
+                    #[cfg(flurry_verif)]
+                    drop(_verif_lock);
                     drop(bin_lock);
                     // next, walk the nodes of the bin and count how many values we remove
                     let mut p = tree_bin.first.load(Ordering::SeqCst, guard);
@@ -1767,7 +1824,11 @@ where
                 }
                 BinEntry::Node(ref head) => {
                     // bin is non-empty, need to link into it, so we must take the lock
+                    #[cfg(flurry_verif)]
+                    crate::verif::before_lock(&head.lock);
                     let head_lock = head.lock.lock();
+                    #[cfg(flurry_verif)]
+                    let _verif_lock = crate::verif::LockScope::new(&head.lock);
 
                     // need to check that this is _still_ the head
                     let current_head = t.bin(bini, guard);
@@ -1851,13 +1912,19 @@ where
 
                         bin_count += 1;
                     };
+                    #[cfg(flurry_verif)]
+                    drop(_verif_lock);
                     drop(head_lock);
                 }
                 // NOTE: BinEntry::Tree(ref tree_bin) if no_replacement && head.hash == h && &head.key == key
                 // cannot occur as in the Java code, TreeBins have a special, indicator hash value
                 BinEntry::Tree(ref tree_bin) => {
                     // bin is non-empty, need to link into it, so we must take the lock
+                    #[cfg(flurry_verif)]
+                    crate::verif::before_lock(&tree_bin.lock);
                     let head_lock = tree_bin.lock.lock();
+                    #[cfg(flurry_verif)]
+                    let _verif_lock = crate::verif::LockScope::new(&tree_bin.lock);
 
                     // need to check that this is _still_ the correct bin
                     let current_head = t.bin(bini, guard);
@@ -1928,6 +1995,8 @@ where
                         }
                         Some(current_value)
                     };
+                    #[cfg(flurry_verif)]
+                    drop(_verif_lock);
                     drop(head_lock);
                 }
                 BinEntry::TreeNode(_) => unreachable!(
@@ -2070,7 +2139,11 @@ where
                 }
                 BinEntry::Node(ref head) => {
                     // bin is non-empty, need to link into it, so we must take the lock
+                    #[cfg(flurry_verif)]
+                    crate::verif::before_lock(&head.lock);
                     let head_lock = head.lock.lock();
+                    #[cfg(flurry_verif)]
+                    let _verif_lock = crate::verif::LockScope::new(&head.lock);
 
                     // need to check that this is _still_ the head
                     let current_head = t.bin(bini, guard);
@@ -2185,11 +2258,17 @@ where
 
                         bin_count += 1;
                     };
+                    #[cfg(flurry_verif)]
+                    drop(_verif_lock);
                     drop(head_lock);
                 }
                 BinEntry::Tree(ref tree_bin) => {
                     // bin is non-empty, need to link into it, so we must take the lock
+                    #[cfg(flurry_verif)]
+                    crate::verif::before_lock(&tree_bin.lock);
                     let bin_lock = tree_bin.lock.lock();
+                    #[cfg(flurry_verif)]
+                    let _verif_lock = crate::verif::LockScope::new(&tree_bin.lock);
 
                     // need to check that this is _still_ the head
                     let current_head = t.bin(bini, guard);
@@ -2299,6 +2378,8 @@ where
                             }
                         }
                     };
+                    #[cfg(flurry_verif)]
+                    drop(_verif_lock);
                     drop(bin_lock);
                 }
                 BinEntry::TreeNode(_) => unreachable!(
@@ -2464,7 +2545,11 @@ where
                     continue;
                 }
                 BinEntry::Node(ref head) => {
+                    #[cfg(flurry_verif)]
+                    crate::verif::before_lock(&head.lock);
                     let head_lock = head.lock.lock();
+                    #[cfg(flurry_verif)]
+                    let _verif_lock = crate::verif::LockScope::new(&head.lock);
 
                     // need to check that this is _still_ the head
                     if t.bin(bini, guard) != bin {
@@ -2530,10 +2615,16 @@ where
                             e = next;
                         }
                     }
+                    #[cfg(flurry_verif)]
+                    drop(_verif_lock);
                     drop(head_lock);
                 }
                 BinEntry::Tree(ref tree_bin) => {
+                    #[cfg(flurry_verif)]
+                    crate::verif::before_lock(&tree_bin.lock);
                     let bin_lock = tree_bin.lock.lock();
+                    #[cfg(flurry_verif)]
+                    let _verif_lock = crate::verif::LockScope::new(&tree_bin.lock);
 
                     // need to check that this is _still_ the head
                     if t.bin(bini, guard) != bin {
@@ -2601,6 +2692,8 @@ where
                         }
                     }
 
+                    #[cfg(flurry_verif)]
+                    drop(_verif_lock);
                     drop(bin_lock);
                 }
                 BinEntry::TreeNode(_) => unreachable!(
@@ -2735,7 +2828,11 @@ where
             // won't be dropped until after we release our guard.
             match **unsafe { bin.deref() } {
                 BinEntry::Node(ref node) => {
+                    #[cfg(flurry_verif)]
+                    crate::verif::before_lock(&node.lock);
                     let lock = node.lock.lock();
+                    #[cfg(flurry_verif)]
+                    let _verif_lock = crate::verif::LockScope::new(&node.lock);
                     // check if `bin` is still the head
                     if tab.bin(index, guard) != bin {
                         return;
@@ -2786,6 +2883,8 @@ where
                     // and have never shared them
                     let head_bin = unsafe { BinEntry::Tree(TreeBin::new(head, guard)) };
                     tab.store_bin(index, Shared::boxed(head_bin, &self.collector));
+                    #[cfg(flurry_verif)]
+                    drop(_verif_lock);
                     drop(lock);
                     // make sure the old bin entries get dropped
                     e = bin;
@@ -3063,6 +3162,10 @@ where
         cloned_map
     }
 }
+
+#[cfg(flurry_verif)]
+#[path = "verif_inspect.rs"]
+mod verif_inspect;
 
 #[cfg(not(miri))]
 #[inline]
